@@ -755,3 +755,45 @@ impl Repr {
         unsafe { &mut *(self as *mut _ as *mut StaticBuffer) }
     }
 }
+
+#[cfg(feature = "verif-hooks")]
+impl Repr {
+    /// 0 = inline, 1 = heap, 2 = static
+    pub(crate) fn verif_kind(&self) -> u8 {
+        if self.is_heap_buffer() {
+            1
+        } else if self.is_static_buffer() {
+            2
+        } else {
+            0
+        }
+    }
+
+    pub(crate) fn verif_ref_count(&self) -> Option<usize> {
+        if self.is_heap_buffer() {
+            // SAFETY: We just checked that `self` is HeapBuffer.
+            Some(unsafe { self.as_heap_buffer() }.reference_count().load(Relaxed))
+        } else {
+            None
+        }
+    }
+
+    pub(crate) fn verif_last_byte(&self) -> u8 {
+        self.last_byte()
+    }
+
+    pub(crate) fn verif_consts() -> [usize; 8] {
+        let h = heap_buffer::verif_consts();
+        let s = static_buffer::verif_consts();
+        [
+            MAX_INLINE_SIZE,
+            h[0],
+            h[1],
+            h[2],
+            s[0],
+            s[1],
+            LastByte::HeapMarker as usize,
+            LastByte::MASK_1100_0000 as usize,
+        ]
+    }
+}
